@@ -153,7 +153,8 @@ def buildDecl (env : Env) (dj : Json) (b0 : B) : Decl × List Val × B :=
         | "shared" => let (v, b') := buildVal [] (fld dj' "val") fa.2; (.shared v, b')
         | _ => let (v, b') := buildVal [] (fld dj' "val") fa.2; (.val v, b')
       (fa.1 ++ [{ name := str! (fld fj "name"), ty := fieldTy fj, dflt := dflt,
-                  noOutput := bool! (fld fj "no_output") }], b')) ([], b0)
+                  noOutput := bool! (fld fj "no_output"),
+                  ci := bool! (fld dj "ci") }], b')) ([], b0)      -- ParserField.setup(options of the declaring class)
     let kind := match str! (fld dj "kind") with
       | "schema" => DKind.schema | "dataclass" => DKind.dataclass | _ => DKind.func
     let ws := match obj? dj "wrappers" with
@@ -165,8 +166,8 @@ def buildDecl (env : Env) (dj : Json) (b0 : B) : Decl × List Val × B :=
       | some r => if isNull r then none else some (str! (fld r "field"), tyOf (fld r "ty"))
       | none => none
     let inherited : List Field := match (obj? dj "base").bind optNat with
-      -- a field set up by a case-insensitive base keeps its lower-cased aliases; one set up case-sensitively does not get them
-      | some j => ((env[j]?.map (fun bd => bd.fields.map (fun f => { f with own := bd.ci && f.own }))).getD [])
+      -- `generate_from_bases`: the base parser's ParserField objects as they are, set up by the base's Options
+      | some j => (env[j]?.map (·.fields)).getD []
       | none => []
     let own := [Val.int inherited.length]      -- (re-used slot) the number of fields taken over from the base
     ({ kind := kind, dfs := bool! (fld dj "dfs"), ci := bool! (fld dj "ci"), fields := inherited ++ fields,
